@@ -15,6 +15,7 @@ pub fn extra_scenarios() -> Vec<Scenario> {
         Scenario::CancelTwin,
         Scenario::FragTwin(0),
         Scenario::FragTwin(1),
+        Scenario::FragTwin(2),
         Scenario::FaultEnum(0),
         Scenario::FaultEnum(1),
         Scenario::Table,
@@ -70,7 +71,13 @@ pub fn cfg_for(scn: Scenario, t: &mut Tape, extra: u64) -> RunCfg {
             c.p_cancel = 0;
             c.p_partial_write = [300, 700, 950][t.choose(3) as usize];
             c.p_frag_read = [300, 700, 950][t.choose(3) as usize];
-            if k == 0 {
+            if k == 2 {
+                // fragments arrive with time gaps while the keep-alive timer runs: the library's
+                // own deadline fires between fragments of one packet
+                c.keepalive_s = 1;
+                c.p_no_pingresp = 1000;
+            }
+            if k == 0 || k == 2 {
                 c.p_partial_write = 0;
                 c.p_frag_read = 0;
                 c.client_id = "c".into();
@@ -153,7 +160,8 @@ pub const PRESTATES: u64 = 96;
 pub fn run_scenario(scn: Scenario, extra: u64) {
     match scn {
         Scenario::CancelTwin => cancel_twin(),
-        Scenario::FragTwin(0) => frag_enum(extra),
+        Scenario::FragTwin(0) => frag_enum(extra, false),
+        Scenario::FragTwin(2) => frag_enum(extra, true),
         Scenario::FragTwin(_) => frag_twin(),
         Scenario::FaultEnum(k) => crate::scen2::fault_enum(k, extra),
         Scenario::Table => crate::scen2::table(extra),
@@ -411,6 +419,7 @@ fn run_script_world(with_disconnect: bool) -> (TwinObs, Vec<u32>) {
 /// C13: the same script with cancellations must produce the same packets and deliveries.
 fn cancel_twin() {
     let (base, vals) = run_script_world(true);
+    let base_cut = with(|w| w.cut);
     let seed = with(|w| w.seed);
     let first = second_world(vals, Some(crate::make_sched(seed)));
     let script = with(|w| gen_script(w, true));
@@ -426,6 +435,17 @@ fn cancel_twin() {
             w.probe("twin_cancelled_after_partial_write");
         }
         if w.cut {
+            // the cancelled run damaged its outbound stream (the base run did not): that is a
+            // cancellation defect in its own right
+            let c01: Option<String> = w.violations.iter().find(|v| v.prop == "C01" && (v.sig.contains("packet-inside-packet") || v.sig.contains("malformed") || v.sig.contains("bad-framing") || v.sig.contains("bytes-after-disconnect"))).map(|v| v.sig.clone());
+            if let (Some(sig), false) = (c01, base_cut) {
+                let tail = sig.trim_start_matches("C01/").to_string();
+                w.violate(
+                    "C13",
+                    format!("stream-corrupted-after-cancellation/{tail}"),
+                    "the run with cancellations corrupted the outbound byte stream; the uncancelled run did not".into(),
+                );
+            }
             return;
         }
         // remove from the base run what was not accepted in the twin
@@ -516,19 +536,32 @@ const STREAMS: [&[u8]; 8] = [
     &[0x90, 0x04, 0x00, 0x09, 0x00, 0x00, 0xD0, 0x00],             // stale SUBACK + PINGRESP
 ];
 
-fn frag_once(stream: &[u8], mask: Option<u64>) -> TwinObs {
+fn frag_once(stream: &[u8], mask: Option<u64>, gaps: bool) -> TwinObs {
     with(|w| {
         w.twin_mode = true;
         w.sched = Some(Tape::replay(Vec::new(), 0));
         w.script_start_pos = w.tape.pos;
-        w.chunk_mask = mask;
-        w.raw_after_connack = Some(stream.to_vec());
+        if gaps {
+            // the stream after the CONNACK is cut at the mask's split points (bit i = after
+            // stream byte i) and the pieces arrive 300 ms apart
+            let mut pieces: Vec<Vec<u8>> = vec![Vec::new()];
+            for (i, b) in stream.iter().enumerate() {
+                pieces.last_mut().unwrap().push(*b);
+                if mask.is_some_and(|m| (m >> i) & 1 == 1) && i + 1 < stream.len() {
+                    pieces.push(Vec::new());
+                }
+            }
+            w.raw_pieces_after_connack = Some(pieces);
+        } else {
+            w.chunk_mask = mask;
+            w.raw_after_connack = Some(stream.to_vec());
+        }
     });
     let cfg = with(|w| w.cfg.clone());
     with_session(&cfg, |s| {
         if let ConnectOutcome::Up(mut conn) = do_connect(s, false) {
-            let opts = ExecOpts { cancellable: true, idle_cancel: true, budget_us: None, timer_is_idle: true };
-            for _ in 0..12 {
+            let opts = ExecOpts { cancellable: true, idle_cancel: true, budget_us: None, timer_is_idle: !gaps };
+            for _ in 0..40 {
                 let r = do_wait(&mut conn, Wait::Poll, Some(opts));
                 if r == Res::Cancelled || r.is_fatal() {
                     break;
@@ -541,17 +574,41 @@ fn frag_once(stream: &[u8], mask: Option<u64>) -> TwinObs {
 }
 
 /// C15 (enumerated): every chunking of a short inbound stream.
-fn frag_enum(extra: u64) {
+fn frag_enum(extra: u64, gaps: bool) {
     let stream = STREAMS[(extra >> 12) as usize % STREAMS.len()];
     let mask = extra & 0xFFF;
-    let base = frag_once(stream, None);
+    let base = frag_once(stream, None, gaps);
     let vals = with(|w| w.tape.vals.clone());
     let first = second_world(vals, None);
-    let twin = frag_once(stream, Some(mask));
+    let twin = frag_once(stream, Some(if gaps { mask & 0xFF } else { mask }), gaps);
     absorb(first);
     with(|w| {
         w.probe("twin_fragmented");
         w.probe("chunking_enumerated");
     });
-    compare_frag(&base, &twin);
+    if !gaps {
+        compare_frag(&base, &twin);
+        return;
+    }
+    // with time gaps the keep-alive traffic interleaves differently: compare what must not
+    // depend on it
+    with(|w| {
+        w.probe("fragments_with_time_gaps");
+        let msgs = |o: &TwinObs| o.delivered.clone();
+        if msgs(&base) != msgs(&twin) {
+            w.violate(
+                "C15",
+                "deliveries-differ/fragments-with-time-gaps".into(),
+                format!("stream delivered at once: {} messages {:?}; delivered in pieces 300 ms apart (mask {:#x}): {} messages {:?}", base.delivered.len(), base.delivered, mask & 0xFF, twin.delivered.len(), twin.delivered),
+            );
+        }
+        let non_ping = |o: &TwinObs| -> Vec<String> { o.keys.iter().flatten().filter(|k| *k != "PINGREQ").cloned().collect() };
+        if non_ping(&base) != non_ping(&twin) {
+            w.violate(
+                "C15",
+                "outbound-packets-differ/fragments-with-time-gaps".into(),
+                format!("at once: {:?}; in pieces: {:?}", non_ping(&base), non_ping(&twin)),
+            );
+        }
+    });
 }
